@@ -217,6 +217,24 @@ fn run_case(base: usize, objs: &[(u64, Val)], muts: &[Mutation], t: &mut Tally, 
 }
 
 pub fn judge_bytes(base: usize, bytes: &[u8], pw: &[u8], labels: Vec<String>, t: &mut Tally, engine: &str, replay: Value) {
+    // an encrypted document is also opened with a password that is neither the user's nor the owner's (the owner
+    // check is a code path of its own): a value or an error, like every other call
+    if !pw.is_empty() {
+        let cfg = CONFIGS[0];
+        t.evaluations += 1;
+        t.distinct.insert(fnv_mix(fnv(bytes), 77));
+        let v = walk_isolated(bytes, b"neither user nor owner", cfg, true, true);
+        t.outcome(&v.class());
+        if let Some((kind, detail)) = v.failure() {
+            let mut devs = labels.clone();
+            devs.push(format!("base={}", BASES[base]));
+            devs.push("password=wrong".into());
+            let mut r = replay.clone();
+            r["config"] = json!(cfg.name());
+            r["wrong_password"] = json!(true);
+            t.fail(engine, &kind, devs, format!("{} [{}, wrong password] {}: {}", BASES[base], cfg.name(), labels.join(" + "), truncate(&detail, 300)), r);
+        }
+    }
     for cfg in CONFIGS {
         t.evaluations += 1;
         t.distinct.insert(fnv_mix(fnv(bytes), cfg.tolerant as u64 * 2 + cfg.cached as u64));
@@ -676,7 +694,10 @@ pub fn run(tier: Tier, _seed: u64, tally: &mut Tally) -> CheckMeta {
                         n_strings += 1;
                         let mut doubled = bytes.clone();
                         doubled.extend_from_slice(bytes);
-                        for (name, nv) in [("empty", vec![]), ("halved", bytes[..bytes.len() / 2].to_vec()), ("doubled", doubled)] {
+                        let fivefold: Vec<u8> = bytes.iter().cycle().take(bytes.len() * 5).cloned().collect();
+                        let mut padded = bytes.clone();
+                        padded.resize(bytes.len().max(127), 0);
+                        for (name, nv) in [("empty", vec![]), ("halved", bytes[..bytes.len() / 2].to_vec()), ("doubled", doubled), ("fivefold", fivefold), ("zero-padded-to-127", padded)] {
                             if &nv != bytes {
                                 muts.push(Mutation { obj: *nr, path: p.clone(), new: Val::Str(nv), label: format!("string:{}{}={}", obj_kind(*nr), field_s(p), name) });
                             }
